@@ -281,7 +281,39 @@ def run_property(pid, tier, seed, args, t0):
         for v in ctx.violations:
             run.violations.append(v)
 
-    # witness replay of known findings (informational; a finding whose witness passes prints nothing)
+    # witness replay: a listed finding whose witness still fails on this tree is reported on every run
+    # (a finding whose witness no longer fails is silently satisfied; nothing is ever added to the file)
+    import datetime as _dtm
+
+    import pendulum as _pendulum
+
+    def _hangs(fn, seconds=2.0):
+        from bounded import guard
+
+        try:
+            guard.call(fn, seconds)
+            return False
+        except guard.Hang:
+            return True
+
+    seen_ids = {k for k, _ in run.known_printed}
+    for f in known.get("findings", []):
+        if f["property"] != pid or f["id"] in seen_ids or not f.get("witness_code"):
+            continue
+        try:
+            def _try(fn):
+                try:
+                    return fn()
+                except Exception as e:  # noqa: BLE001
+                    return e
+
+            still = bool(eval(f["witness_code"], {"pendulum": _pendulum, "_dt": _dtm, "hangs": _hangs, "_try": _try}))
+        except Exception as e:  # noqa: BLE001
+            still = False
+            run.notes.append(f"witness of {f['id']} could not be evaluated: {type(e).__name__}: {e}")
+        if still:
+            run.known_printed.append((f["id"], f))
+            seen_ids.add(f["id"])
     for key, f in run.known_printed:
         log(f"KNOWN-FINDING: property={pid} {f['what']} [{key}]")
 
